@@ -52,6 +52,40 @@ def RV(x):
     raise TypeError(x)
 
 
+AUX_DEFS = {}      # z3 ast id of an aux-defining assertion -> aux variable name
+
+
+def _aux_name(a):
+    e = AUX_DEFS.get(a.get_id())
+    # the registry keeps a reference to the formula, so its ast id cannot be recycled; eq() guards anyway
+    if e is not None and e[1].eq(a):
+        return e[0]
+    return None
+
+
+def prune_aux(assertions):
+    """drop definitions of auxiliary roots that the rest of the query does not mention (closure over radicands)"""
+    aux = [(a, _aux_name(a)) for a in assertions]
+    if not any(n for _, n in aux):
+        return assertions
+    used = set()
+    for a, n in aux:
+        if n is None:
+            used |= set(_collect_consts([a]).keys())
+    changed = True
+    keep = set()
+    while changed:
+        changed = False
+        for a, n in aux:
+            if n is not None and n in used and a.get_id() not in keep:
+                keep.add(a.get_id())
+                new = set(_collect_consts([a]).keys()) - used
+                if new:
+                    used |= new
+                changed = True
+    return [a for a, n in aux if n is None or a.get_id() in keep]
+
+
 class ZCtx:
     """z3 view of a Field"""
 
@@ -126,14 +160,24 @@ class ZCtx:
         return self.cmp0(lift(a) - lift(b), op)
 
     def relations(self):
+        """defining relations and sign facts.  Assertions that define an auxiliary square root (u_k^2 = radicand, u_k >= 0) are
+        registered in AUX_DEFS: smt.solve drops them from queries in which u_k does not occur, because a root introduced on
+        one path must not constrain another path (u^2 = d silently forces d >= 0)."""
         f = self.f
         cs = []
         for i, rep in f.rel.items():
-            g = self.var(f.names[i])
-            cs.append(g * g == self.pz(rep))
+            n = f.names[i]
+            g = self.var(n)
+            c = g * g == self.pz(rep)
+            if n in f.auxdef:
+                AUX_DEFS[c.get_id()] = (n, c)
+            cs.append(c)
         for n, sg in f.sign.items():
             v = self.var(n)
-            cs.append({'>': v > 0, '>=': v >= 0, '<': v < 0, '<=': v <= 0}[sg])
+            c = {'>': v > 0, '>=': v >= 0, '<': v < 0, '<=': v <= 0}[sg]
+            if n in f.auxdef:
+                AUX_DEFS[c.get_id()] = (n, c)
+            cs.append(c)
         return cs
 
 
@@ -300,6 +344,11 @@ def _fork_run(fn):
     pid = os.fork()
     if pid == 0:
         try:
+            try:      # die with the parent (no orphan solver processes holding pipes open)
+                import ctypes
+                ctypes.CDLL('libc.so.6').prctl(1, 9)
+            except Exception:
+                pass
             os.close(r)
             try:
                 res = fn()
@@ -382,24 +431,32 @@ def _kill(pid):
         pass
 
 
+INPROC = False     # property modules with linear/integer queries set this to True (no risk of non-interruptible nlsat calls)
+
+
 def solve(assertions, timeout_s=10.0, cvc5_timeout_s=None, want_model=True, order=('z3', 'cvc5'), tactic=None,
-          quick_s=1.0):
+          quick_s=1.0, inproc=None):
     """decide satisfiability of the conjunction.  returns (status, model-dict-or-None, info).
-    In-process z3 for `quick_s`; if still unknown and cvc5 is allowed, both solvers run concurrently
-    in forked children under hard wall-clock limits; first definitive answer wins."""
-    assertions = [a for a in assertions]
+    Nonlinear queries run in forked children under hard wall-clock limits (z3's own timeout is not always honoured
+    inside nlsat): z3 and, if allowed, cvc5 concurrently; first definitive answer wins.
+    inproc=True: z3 in this process (linear / integer logics)."""
+    assertions = prune_aux([a for a in assertions])
     STATS.queries += 1
     info = {}
+    inproc = INPROC if inproc is None else inproc
     use_cvc5 = 'cvc5' in order and cvc5 is not None and (cvc5_timeout_s is None or cvc5_timeout_s > 0)
     t0 = time.time()
-    first = timeout_s if not use_cvc5 else min(quick_s, timeout_s)
-    status, model = _z3_solve(assertions, first, want_model, tactic)
-    STATS.solver_time['z3'] += time.time() - t0
     which = 'z3'
-    if status == 'unknown' and use_cvc5:
-        status, model, which = _portfolio(assertions, timeout_s, cvc5_timeout_s, want_model, order)
+    if inproc:
+        status, model = _z3_solve(assertions, timeout_s, want_model, tactic)
+        STATS.solver_time['z3'] += time.time() - t0
+        if status == 'unknown' and use_cvc5:
+            status, model, which = _portfolio(assertions, timeout_s, cvc5_timeout_s, want_model, ('cvc5',))
+    else:
+        status, model, which = _portfolio(assertions, timeout_s, cvc5_timeout_s if use_cvc5 else 0, want_model,
+                                          order if use_cvc5 else ('z3',))
     if status != 'unknown':
-        STATS.by_solver[which] += 1
+        STATS.by_solver[which or 'z3'] += 1
         info['solver'] = which
     STATS.by_result[status] += 1
     return status, model, info
